@@ -71,6 +71,21 @@ type sfEngine struct {
 	undeleg      map[uint64]int64 // lock id -> engine time of its undelegation
 	opsSinceEp   map[string]int   // per intermediary account: stake-changing ops since the last refresh
 	refreshedAll bool
+	// slashing (engine-side facts, from op results only)
+	slashedVal   map[int]bool     // validator index -> slashed at least once in this history (exchange rate != 1)
+	slashSinceEp map[int]bool     // validator index -> slashed since the last full refresh
+	class        string           // history class: script | random | dust | slash | mixed
+	queue        []sfStep         // pending steps of a directed macro (dust-and-recover, slashed-validator)
+	lastNew      uint64           // id returned by the last successful lock op
+	valBurns     map[int]int64    // per validator: force-undelegations (undelegate / undelegate-and-unbond) since the last refresh
+	carry        map[string]int64 // per account on a slashed validator: whole units of excess stake the last refresh left (explained classes only)
+}
+
+// one step of a directed macro: the op is computed when the step is executed (it may refer to locks the macro
+// created earlier); `after` sees whether the op succeeded and the id it returned.
+type sfStep struct {
+	mk    func() (sfOp, bool)
+	after func(ok bool, id uint64)
 }
 
 // one op of a history
@@ -85,10 +100,16 @@ type sfOp struct {
 	single bool
 	dt     int64
 	moves  int
+	// slash: validator v, consensus power, fraction (Dec string); move: pool d, factor num/den, down
+	power int64
+	frac  string
+	num   int64
+	den   int64
+	down  bool
 }
 
 func (e *sfEngine) ctx() sdk.Context { return e.h.Ctx }
-func (e *sfEngine) now() int64      { return int64(e.h.Ctx.BlockTime().Sub(e.t0)/time.Second) + 1 }
+func (e *sfEngine) now() int64       { return int64(e.h.Ctx.BlockTime().Sub(e.t0)/time.Second) + 1 }
 func (e *sfEngine) rel(t time.Time) string {
 	if t.Equal(time.Time{}) {
 		return "-"
@@ -98,7 +119,17 @@ func (e *sfEngine) rel(t time.Time) string {
 
 func (e *sfEngine) atomic(f func(ctx sdk.Context) error) (err error, panicked bool) {
 	cctx, write := e.h.Ctx.CacheContext()
-	ok := catch(func() { err = f(cctx) })
+	ok := catch(func() {
+		if os.Getenv("VERIF_SF_DEBUG") != "" {
+			defer func() {
+				if r := recover(); r != nil {
+					fmt.Fprintf(os.Stderr, "PANIC: %v\n", r)
+					panic(r)
+				}
+			}()
+		}
+		err = f(cctx)
+	})
 	if !ok {
 		return nil, true
 	}
@@ -223,6 +254,20 @@ func (e *sfEngine) poolReading(p sfPool) (*big.Int, *big.Int) {
 	return pool.GetTotalPoolLiquidity(e.ctx()).AmountOf(e.bond).BigInt(), new(big.Int).Mul(pool.GetTotalShares().BigInt(), e18)
 }
 
+// stakeFail: the stake-versus-locks clauses of C11 are stated for histories of delegations, undelegations, top-ups,
+// unbondings, price changes and epochs; validator slashing is not among them.  What the real code does to the stake of
+// a slashed validator (stake and locks cut independently until the next refresh; truncation at an exchange rate != 1;
+// RoundInt read of the current amount) is therefore recorded as an observation (counter + DESIGN.md), not reported as a
+// violation; the Lean model covers those histories bit-exactly, so a change of behaviour there is still a divergence.
+// The supply and marker clauses are checked in every regime.
+func (e *sfEngine) stakeFail(key, detail string) {
+	if strings.Contains(key, ":slashed") || strings.Contains(key, "slashed-") {
+		e.o.Count("outside-quantifier." + key)
+		return
+	}
+	e.o.Fail(key, detail)
+}
+
 // priceMove: swap / join / exit in a real pool (not a model op: the epoch line carries the pool reading).
 func (e *sfEngine) priceMove() {
 	p := e.pools[e.r.Intn(len(e.pools))]
@@ -306,17 +351,38 @@ func (e *sfEngine) locks() []sfLock {
 }
 
 type sfAcc struct {
-	d, v  int
-	gauge uint64
-	addr  sdk.AccAddress
-	stake *big.Int // nil = no delegation object
-	key   string
+	d, v   int
+	gauge  uint64
+	addr   sdk.AccAddress
+	stake  *big.Int // nil = no delegation object; else TokensFromShares(shares) truncated
+	shares *big.Int // raw 18-decimal delegation shares (nil = no delegation object)
+	exact  *big.Rat // shares * validator tokens / validator shares, exact (0 if no delegation object)
+	cur    *big.Int // what the refresh reads: TokensFromShares(shares).RoundInt() on the real keeper (0 if none)
+	key    string
+}
+
+type sfVal struct {
+	tokens *big.Int
+	shares *big.Int // raw 18-decimal delegator shares
+	jailed bool
+}
+
+func (e *sfEngine) validators() []sfVal {
+	var out []sfVal
+	for i := 0; i < len(e.vals)-1; i++ {
+		val, err := e.h.App.StakingKeeper.GetValidator(e.ctx(), e.vals[i])
+		if err != nil {
+			panic(err)
+		}
+		out = append(out, sfVal{tokens: val.Tokens.BigInt(), shares: val.DelegatorShares.BigInt(), jailed: val.Jailed})
+	}
+	return out
 }
 
 func (e *sfEngine) accounts() []sfAcc {
 	var out []sfAcc
 	for _, a := range e.h.App.SuperfluidKeeper.GetAllIntermediaryAccounts(e.ctx()) {
-		x := sfAcc{d: e.denomIdx(a.Denom), v: e.valIdx(a.ValAddr), gauge: a.GaugeId, addr: a.GetAccAddress()}
+		x := sfAcc{d: e.denomIdx(a.Denom), v: e.valIdx(a.ValAddr), gauge: a.GaugeId, addr: a.GetAccAddress(), exact: new(big.Rat), cur: new(big.Int)}
 		x.key = fmt.Sprintf("%d.%d", x.d, x.v)
 		valAddr, _ := sdk.ValAddressFromBech32(a.ValAddr)
 		del, err := e.h.App.StakingKeeper.GetDelegation(e.ctx(), x.addr, valAddr)
@@ -324,10 +390,15 @@ func (e *sfEngine) accounts() []sfAcc {
 			val, verr := e.h.App.StakingKeeper.GetValidator(e.ctx(), valAddr)
 			if verr == nil {
 				tok := val.TokensFromShares(del.Shares)
-				if !tok.IsInteger() {
-					e.o.Fail("regime:non-integer-stake", fmt.Sprintf("%s tokens %s", x.key, tok))
+				if !tok.IsInteger() && len(e.slashedVal) == 0 {
+					e.o.Fail("regime:non-integer-stake:unslashed", fmt.Sprintf("%s tokens %s", x.key, tok))
 				}
 				x.stake = tok.TruncateInt().BigInt()
+				x.cur = tok.RoundInt().BigInt()
+				x.shares = del.Shares.BigInt()
+				if val.DelegatorShares.IsPositive() {
+					x.exact = new(big.Rat).SetFrac(new(big.Int).Mul(del.Shares.BigInt(), val.Tokens.BigInt()), val.DelegatorShares.BigInt())
+				}
 			}
 		}
 		out = append(out, x)
@@ -408,9 +479,13 @@ func (e *sfEngine) observe() (string, sfView) {
 	var st, cns, sys, lks, acs, ms []string
 	for _, a := range accs {
 		if a.stake != nil {
-			st = append(st, fmt.Sprintf("%s=%s", a.key, a.stake))
+			st = append(st, fmt.Sprintf("%s=%s/%s", a.key, a.stake, a.shares))
 		}
 		acs = append(acs, fmt.Sprintf("%s:%d", a.key, a.gauge))
+	}
+	var vls []string
+	for i, vl := range e.validators() {
+		vls = append(vls, fmt.Sprintf("%d:%s:%s", i, vl.tokens, vl.shares))
 	}
 	for _, c := range cn {
 		cns = append(cns, fmt.Sprintf("%d>%s", c.lock, c.key))
@@ -430,7 +505,7 @@ func (e *sfEngine) observe() (string, sfView) {
 	}
 	sup, off, rep := e.supply()
 	j := func(l []string) string { return "[" + strings.Join(l, ",") + "]" }
-	return fmt.Sprintf("st=%s cn=%s sy=%s lk=%s ac=%s m=%s sup=%s off=%s rep=%s", j(st), j(cns), j(sys), j(lks), j(acs), j(ms), sup, off, rep), sfView{accs, cn, sy, lk}
+	return fmt.Sprintf("vl=%s st=%s cn=%s sy=%s lk=%s ac=%s m=%s sup=%s off=%s rep=%s", j(vls), j(st), j(cns), j(sys), j(lks), j(acs), j(ms), sup, off, rep), sfView{accs, cn, sy, lk}
 }
 
 // osmoValue: the reference for GetSuperfluidOSMOTokens — nearest-even integer of multiplier·amount, minus the
@@ -445,7 +520,7 @@ func (e *sfEngine) osmoValue(mult *big.Int, amount *big.Int) *big.Int {
 }
 
 // ---------------------------------------------------------------------------------------------- oracle
-func (e *sfEngine) oracle(op string, line string, v sfView, repBefore *big.Int) {
+func (e *sfEngine) oracle(op string, line string, v sfView, prev sfView, repBefore *big.Int) {
 	accs, cn, sy, lk := v.accs, v.cn, v.sy, v.lk
 	lockBy := map[uint64]sfLock{}
 	for _, l := range lk {
@@ -502,6 +577,7 @@ func (e *sfEngine) oracle(op string, line string, v sfView, repBefore *big.Int) 
 		}
 	}
 	// --- stake
+	half := big.NewRat(1, 2)
 	for _, a := range accs {
 		total := new(big.Int)
 		n := 0
@@ -518,33 +594,136 @@ func (e *sfEngine) oracle(op string, line string, v sfView, repBefore *big.Int) 
 		if a.stake != nil {
 			got.Set(a.stake)
 		}
+		rec := "has-record"
+		if a.stake == nil {
+			rec = "no-record"
+		}
 		diff := new(big.Int).Abs(new(big.Int).Sub(got, want))
 		e.o.Count(fmt.Sprintf("stake.locks.%d", min(n, 4)))
 		if op == "epoch" && e.refreshedAll {
-			if diff.Sign() != 0 {
-				e.o.Fail("stake:mismatch-after-refresh", fmt.Sprintf("%s stake %s expected %s (%d locks, total %s) | %s", a.key, got, want, n, total, line))
+			if a.v < 0 || a.v >= len(e.vals)-1 {
+				continue // no such validator: the refresh skips the account
+			}
+			dir := "short"
+			if new(big.Rat).SetInt(want).Cmp(a.exact) < 0 {
+				dir = "over"
+			}
+			if !e.slashedVal[a.v] {
+				// exchange rate exactly one: the refresh sets the stake to the expected amount exactly
+				if diff.Sign() != 0 || !a.exact.IsInt() {
+					e.o.Fail("stake:refresh-mismatch:unslashed:"+rec+":"+dir, fmt.Sprintf("%s stake %s expected %s (%d locks, total %s) | %s", a.key, a.exact.RatString(), want, n, total, line))
+				}
+				e.o.Count("refresh.unslashed." + rec)
+				continue
+			}
+			// slashed validator (exchange rate != 1).  The refresh reads the stake ROUNDED to a whole token
+			// (half-even of the 18-decimal TokensFromShares) and mints / burns the whole-token difference.
+			// Documented rounding: the exact stake ends within 1/2 (+10^-6 for the 18-decimal share arithmetic)
+			// of the expected amount.  Two further behaviours of the unchanged code are classified (they are
+			// recorded findings, not tolerated silently):
+			//  truncation-leak        an InstantUndelegate pays out TokensFromShares(shares) TRUNCATED; the lost
+			//                         fraction (< 1 token per burn) stays with the validator and is shared by its
+			//                         delegators, so an account can end above the expected amount by up to one
+			//                         token per account of that validator that was burnt from in this refresh
+			//  burn-rejected-round-up the rounded current amount exceeds the token worth of the delegation, the
+			//                         shares for (rounded current - expected) exceed the delegation's shares,
+			//                         ValidateUnbondAmount fails with "invalid shares amount", the error is only
+			//                         logged and the stake stays above the expected amount
+			dev := new(big.Rat).Sub(a.exact, new(big.Rat).SetInt(want))
+			sign := dev.Sign()
+			dev.Abs(dev)
+			tol := new(big.Rat).Add(half, big.NewRat(1, 1_000_000))
+			e.carry[a.key] = 0
+			switch {
+			case dev.Sign() == 0:
+				e.o.Count("refresh.slashed.exact")
+			case dev.Cmp(tol) <= 0:
+				e.o.Count("refresh.slashed.within-half-unit")
+				if diff.Sign() != 0 {
+					e.o.Count("refresh.slashed.truncated-stake-one-short")
+				}
+			default:
+				burnt := int64(0) // accounts of this validator whose delegation lost shares in this refresh
+				unchanged := false
+				for _, p := range prev.accs {
+					if p.v != a.v || p.shares == nil {
+						continue
+					}
+					for _, q := range accs {
+						if q.key == p.key {
+							if q.shares == nil || q.shares.Cmp(p.shares) < 0 {
+								burnt++
+							}
+							if q.key == a.key && q.shares != nil && q.shares.Cmp(p.shares) == 0 {
+								unchanged = true
+							}
+						}
+					}
+				}
+				cls := "unexplained"
+				if sign > 0 && dev.Cmp(new(big.Rat).Add(tol, big.NewRat(burnt, 1))) <= 0 && burnt > 0 {
+					cls = "truncation-leak"
+				} else if sign > 0 && unchanged && a.stake != nil {
+					adj := new(big.Int).Sub(a.cur, want) // the adjustment the refresh asks for (current amount as IT reads it)
+					cctx, _ := e.h.Ctx.CacheContext()
+					var perr error
+					if adj.Sign() > 0 && catch(func() {
+						_, perr = e.h.App.StakingKeeper.ValidateUnbondAmount(cctx, a.addr, e.vals[a.v], osmomath.NewIntFromBigInt(adj))
+					}) && perr != nil && has(perr.Error(), "invalid shares amount") {
+						cls = "burn-rejected-round-up"
+					}
+				}
+				if cls != "unexplained" {
+					e.carry[a.key] = ratCeil(dev).Int64()
+				}
+				e.stakeFail("stake:refresh-mismatch:slashed:"+rec+":"+dir+":"+cls, fmt.Sprintf("%s stake %s (shares %v) expected %s (%d locks, total %s; %d accounts of the validator burnt from) | %s", a.key, a.exact.FloatString(6), a.shares, want, n, total, burnt, line))
 			}
 			continue
 		}
+		// between refreshes: distance of the exact stake from the expected amount, in whole units rounded up
+		devR := new(big.Rat).Sub(a.exact, new(big.Rat).SetInt(want))
+		devR.Abs(devR)
+		diff = ratCeil(devR)
 		if diff.Cmp(big.NewInt(int64(n))) > 0 {
 			k := e.opsSinceEp[a.key]
 			cls := "n>0"
 			if n == 0 {
 				cls = "n=0"
 			}
-			if diff.Cmp(big.NewInt(int64(k+1))) <= 0 {
-				e.o.Fail("stake:drift>locks:"+cls+":within-one-per-op", fmt.Sprintf("%s stake %s expected %s: |diff| %s > %d locks (%d stake-changing ops since refresh) | %s", a.key, got, want, diff, n, k, line))
+			pre := "stake:drift>locks:"
+			allow := int64(k + 1)
+			if e.slashSinceEp[a.v] {
+				// the validator was slashed since the last refresh: stake and locks were cut independently
+				pre = "stake:drift>locks:slashed-since-refresh:"
+			} else if c := e.carry[a.key] + e.valBurns[a.v]; e.slashedVal[a.v] && c > 0 && devR.Cmp(new(big.Rat).Add(big.NewRat(allow, 1), new(big.Rat).Add(half, big.NewRat(1, 1_000_000)))) > 0 {
+				// exchange rate != 1: the excess the last refresh left on this account (explained, recorded) plus up
+				// to one token per force-undelegation on this validator since (truncation leak, see above)
+				pre = "stake:drift>locks:slashed-refresh-excess:"
+				allow += c
+			}
+			bound := big.NewRat(allow, 1)
+			if e.slashedVal[a.v] {
+				// exchange rate != 1: the refresh itself leaves the exact stake up to half a token (+10^-6) off
+				bound.Add(bound, new(big.Rat).Add(half, big.NewRat(1, 1_000_000)))
+			}
+			if devR.Cmp(bound) <= 0 {
+				e.stakeFail(pre+cls+":within-one-per-op", fmt.Sprintf("%s stake %s expected %s: |diff| %s > %d locks (%d stake-changing ops since refresh) | %s", a.key, a.exact.FloatString(6), want, diff, n, k, line))
 			} else {
-				e.o.Fail("stake:drift>locks:"+cls+":beyond-one-per-op", fmt.Sprintf("%s stake %s expected %s: |diff| %s > %d locks and > %d ops+1 | %s", a.key, got, want, diff, n, k, line))
+				e.stakeFail(pre+cls+":beyond-one-per-op", fmt.Sprintf("%s stake %s expected %s: |diff| %s > %d locks and > %d | %s", a.key, a.exact.FloatString(6), want, diff, n, allow, line))
 			}
 		} else if diff.Sign() != 0 {
 			e.o.Count("stake.drift-within-bound")
 		}
 	}
-	// --- supply
+	// --- supply: the reported supply (bank supply + offset) is unchanged by every superfluid op; a validator
+	// slash burns exactly the amount the staking keeper reports and nothing else
 	_, _, rep := e.supply()
+	sl := "unslashed"
+	if len(e.slashedVal) > 0 {
+		sl = "slashed"
+	}
 	if rep.Cmp(repBefore) != 0 {
-		e.o.Fail("supply:changed:"+op, fmt.Sprintf("reported supply %s -> %s | %s", repBefore, rep, line))
+		e.o.Fail("supply:reported-changed:"+op+":"+sl, fmt.Sprintf("reported supply %s -> %s (%s) | %s", repBefore, rep, new(big.Int).Sub(rep, repBefore), line))
 	}
 	// --- guards, probed on discarded branches
 	lms := lockupkeeper.NewMsgServerImpl(e.h.App.LockupKeeper)
@@ -641,6 +820,15 @@ func (e *sfEngine) setup(t *testing.T, su sfSetup) {
 	o.Count("rf." + rfDec.String())
 	for i := 0; i < su.nv; i++ {
 		e.vals = append(e.vals, h.SetupValidator(stakingtypes.Bonded))
+		// SetupValidator flips the status to Bonded without moving the self-bond out of the not-bonded pool
+		// (the staking EndBlocker would do that); a slash burns from the bonded pool, so move it here
+		val, err := h.App.StakingKeeper.GetValidator(ctx, e.vals[i])
+		if err != nil {
+			t.Fatal(err)
+		}
+		if err := h.App.BankKeeper.SendCoinsFromModuleToModule(ctx, stakingtypes.NotBondedPoolName, stakingtypes.BondedPoolName, sdk.NewCoins(sdk.NewCoin(sp.BondDenom, val.Tokens))); err != nil {
+			t.Fatal(err)
+		}
 	}
 	e.vals = append(e.vals, sdk.ValAddress([]byte("not-a-validator-addr")))
 	for i := 0; i < 3; i++ {
@@ -687,9 +875,13 @@ func (e *sfEngine) setup(t *testing.T, su sfSetup) {
 			as = append(as, fmt.Sprintf("%d:%s", i, e.mult(p)))
 		}
 	}
+	var ks []string
+	for _, vl := range e.validators() {
+		ks = append(ks, fmt.Sprintf("%s:%s", vl.tokens, vl.shares))
+	}
 	obs, _ := e.observe()
-	o.Emit(fmt.Sprintf("superfluid reset %d %d %s %s %s %d %d v=%s a=%s d=%s", e.now(), e.ubs, e.rf, sup, off, h.App.IncentivesKeeper.GetLastGaugeID(ctx),
-		h.App.LockupKeeper.GetLastLockID(ctx), strings.Join(vs, ","), strings.Join(as, ","), strings.Join(ds, ",")), "ok "+obs, false)
+	o.Emit(fmt.Sprintf("superfluid reset %d %d %s %s %s %d %d v=%s a=%s d=%s k=%s", e.now(), e.ubs, e.rf, sup, off, h.App.IncentivesKeeper.GetLastGaugeID(ctx),
+		h.App.LockupKeeper.GetLastLockID(ctx), strings.Join(vs, ","), strings.Join(as, ","), strings.Join(ds, ","), strings.Join(ks, ",")), "ok "+obs, false)
 }
 
 func runSuperfluid(t *testing.T, seed int64, n int, dir string) {
@@ -703,11 +895,12 @@ func runSuperfluid(t *testing.T, seed int64, n int, dir string) {
 	}
 	newEngine := func() *sfEngine {
 		h.Reset()
-		return &sfEngine{h: h, o: o, r: r, undeleg: map[uint64]int64{}, opsSinceEp: map[string]int{}}
+		return &sfEngine{h: h, o: o, r: r, undeleg: map[uint64]int64{}, opsSinceEp: map[string]int{}, slashedVal: map[int]bool{}, slashSinceEp: map[int]bool{}, carry: map[string]int64{}, valBurns: map[int]int64{}}
 	}
 	// ---- history 0: the scripted witness of the recorded findings (multiplier 2.5, risk factor 0.5)
 	{
 		e := newEngine()
+		e.class = "script"
 		e.setup(t, sfSetup{rf: "0.5", nv: 2, osmo: []*big.Int{mulShares(5, 2), mulShares(1, 1)}, clAt: -1})
 		done++
 		u := e.ubs
@@ -717,9 +910,9 @@ func runSuperfluid(t *testing.T, seed int64, n int, dir string) {
 			{kind: "lock", snd: 1, d: 0, amt: one, dur: u, single: true},
 			{kind: "delegate", snd: 0, id: 1, v: 0},
 			{kind: "delegate", snd: 1, id: 2, v: 0}, // stake 1+1
-			{kind: "epoch"},                          // refreshed to value(2 shares) = 3
-			{kind: "undelegate", snd: 0, id: 1},      // -1
-			{kind: "undelegate", snd: 1, id: 2},      // -1: one unit stays staked with no lock delegated
+			{kind: "epoch"},                         // refreshed to value(2 shares) = 3
+			{kind: "undelegate", snd: 0, id: 1},     // -1
+			{kind: "undelegate", snd: 1, id: 2},     // -1: one unit stays staked with no lock delegated
 			{kind: "lock", snd: 2, d: 0, amt: one, dur: u, single: true},
 			{kind: "delegate", snd: 2, id: 3, v: 1},
 			{kind: "addtolock", snd: 2, id: 3, amt: one},
@@ -736,6 +929,16 @@ func runSuperfluid(t *testing.T, seed int64, n int, dir string) {
 	}
 	for done < n {
 		e := newEngine()
+		switch c := r.Intn(20); {
+		case c < 6:
+			e.class = "random"
+		case c < 11:
+			e.class = "dust"
+		case c < 17:
+			e.class = "slash"
+		default:
+			e.class = "mixed"
+		}
 		rfs := []string{"0.5", "0", "0.25", "0.333333333333333333", "0.05", "0.999999999999999999", "1", "0.5"}
 		su := sfSetup{rf: rfs[r.Intn(len(rfs))], nv: 2 + r.Intn(2), clAt: -1}
 		np := 1 + r.Intn(2)
@@ -763,6 +966,16 @@ func runSuperfluid(t *testing.T, seed int64, n int, dir string) {
 			su.clTok = new(big.Int).Mul(big.NewInt(int64(1+r.Intn(1000))), pow10(6+r.Intn(8)))
 			o.Count("history.with-concentrated")
 		}
+		if e.class == "dust" || e.class == "mixed" || (e.class == "slash" && r.Intn(2) == 0) {
+			// pool 0 is a classic pool whose multiplier values 1-3 shares at 1-3 uosmo (dust stakes)
+			ms := [][2]int64{{1, 1}, {3, 2}, {2, 1}, {5, 2}, {3, 1}, {1, 1}, {7, 3}}
+			m := ms[r.Intn(len(ms))]
+			su.osmo[0] = mulShares(m[0], m[1])
+			if su.clAt == 0 {
+				su.clAt = -1
+			}
+			su.rf = []string{"0", "0.25", "0.5", "0.05", "0.333333333333333333"}[r.Intn(5)]
+		}
 		e.setup(t, su)
 		done++
 		nops := 40 + r.Intn(120)
@@ -774,12 +987,19 @@ func runSuperfluid(t *testing.T, seed int64, n int, dir string) {
 				e.do(sfOp{kind: "exportimport", snd: -1})
 				done++
 			}
-			if op, ok := e.choose(); ok {
-				e.do(op)
+			op, after, ok := e.next()
+			if !ok {
+				continue
+			}
+			succeeded, id, emitted := e.do(op)
+			if after != nil {
+				after(succeeded, id)
+			}
+			if emitted {
 				done++
 			}
 		}
-		o.Count("history.random")
+		o.Count("history." + e.class)
 	}
 	o.Close(nil)
 }
@@ -826,6 +1046,344 @@ func (e *sfEngine) pickLock(lk []sfLock, pred func(sfLock) bool) (uint64, int) {
 	return l.id, snd
 }
 
+// next: the next op of the history — a pending step of a directed macro (mostly), a new macro, or a random op.
+func (e *sfEngine) next() (sfOp, func(bool, uint64), bool) {
+	r := e.r
+	pop := func() (sfOp, func(bool, uint64), bool) {
+		st := e.queue[0]
+		e.queue = e.queue[1:]
+		op, ok := st.mk()
+		return op, st.after, ok
+	}
+	if len(e.queue) > 0 && r.Intn(6) != 0 {
+		return pop()
+	}
+	if len(e.queue) == 0 {
+		switch e.class {
+		case "dust":
+			if r.Intn(5) == 0 {
+				e.planDust()
+			}
+		case "slash":
+			if r.Intn(10) == 0 {
+				e.planSlashed()
+			}
+		case "mixed":
+			if r.Intn(8) == 0 {
+				if r.Intn(2) == 0 {
+					e.planDust()
+				} else {
+					e.planSlashed()
+				}
+			}
+		}
+		if len(e.queue) > 0 {
+			return pop()
+		}
+	}
+	op, ok := e.choose()
+	return op, nil, ok
+}
+
+func (e *sfEngine) step(mk func() (sfOp, bool), after func(bool, uint64)) {
+	e.queue = append(e.queue, sfStep{mk: mk, after: after})
+}
+
+// classicAsset: an enabled classic-pool denom index (-1 if none).
+func (e *sfEngine) classicAsset() int {
+	var c []int
+	for i, p := range e.pools {
+		if p.asset && !p.cl {
+			c = append(c, i)
+		}
+	}
+	if len(c) == 0 {
+		return -1
+	}
+	if e.pools[0].asset && !e.pools[0].cl && e.r.Intn(4) != 0 {
+		return 0
+	}
+	return c[e.r.Intn(len(c))]
+}
+
+// planDust — "dust and recover": 1-3 locks worth 1-3 uosmo each on ONE intermediary account, refresh, a price
+// fall so large that the value of all of them rounds to 0, refresh (everything is force-undelegated and the
+// staking delegation record disappears), optionally a top-up / new delegation / undelegation at the low price,
+// price recovery, refresh (the stake has to be re-created from nothing).
+func (e *sfEngine) planDust() {
+	r := e.r
+	d := e.classicAsset()
+	if d < 0 {
+		return
+	}
+	v := r.Intn(len(e.vals) - 1)
+	ow := r.Intn(3)
+	k := 1 + r.Intn(3)
+	var ids []uint64
+	e.o.Count("macro.dust")
+	small := func() *big.Int { // 1-3 shares worth 1-3 uosmo now (else the smallest amount worth >= 1)
+		m := e.mult(e.pools[d])
+		var c []int64
+		for x := int64(1); x <= 3; x++ {
+			if val := e.osmoValue(m, big.NewInt(x)); val.Sign() > 0 && val.Cmp(big.NewInt(3)) <= 0 {
+				c = append(c, x)
+			}
+		}
+		if len(c) > 0 {
+			return big.NewInt(c[r.Intn(len(c))])
+		}
+		for x := int64(1); x <= 64; x *= 2 {
+			if e.osmoValue(m, big.NewInt(x)).Sign() > 0 {
+				return big.NewInt(x)
+			}
+		}
+		return big.NewInt(1 + int64(r.Intn(3)))
+	}
+	for i := 0; i < k; i++ {
+		e.step(func() (sfOp, bool) {
+			return sfOp{kind: "lock", snd: ow, d: d, amt: small(), dur: e.ubs, single: true}, true
+		},
+			func(ok bool, id uint64) {
+				if ok {
+					ids = append(ids, id)
+				}
+			})
+		e.step(func() (sfOp, bool) {
+			if len(ids) == 0 {
+				return sfOp{}, false
+			}
+			return sfOp{kind: "delegate", snd: ow, id: ids[len(ids)-1], v: v}, true
+		}, nil)
+	}
+	if r.Intn(3) != 0 {
+		e.step(func() (sfOp, bool) { return sfOp{kind: "epoch"}, true }, nil)
+	}
+	var f int64
+	e.step(func() (sfOp, bool) {
+		// factor: at least 4; usually large enough that round(multiplier * total) becomes 0
+		total := new(big.Int)
+		for _, l := range e.locks() {
+			for _, id := range ids {
+				if l.id == id {
+					total.Add(total, l.amount)
+				}
+			}
+		}
+		R := ratCeil(new(big.Rat).SetFrac(new(big.Int).Mul(e.mult(e.pools[d]), total), e18))
+		f = 4
+		if !R.IsInt64() || R.Int64() > 1_000_000 {
+			f = 4 + int64(r.Intn(60)) // not a dust stake (another pool was picked): just a large fall
+		} else if r.Intn(5) != 0 {
+			f = 3*R.Int64() + 4 + int64(r.Intn(3))
+			if r.Intn(3) == 0 {
+				f *= int64(2 + r.Intn(20))
+			}
+		}
+		return sfOp{kind: "move", d: d, num: f, den: 1, down: true}, true
+	}, nil)
+	e.step(func() (sfOp, bool) { return sfOp{kind: "epoch"}, true }, nil)
+	switch r.Intn(7) {
+	case 0, 1: // nothing between the two refreshes
+	case 2: // dust top-up (worth nothing at the low price)
+		e.step(func() (sfOp, bool) {
+			if len(ids) == 0 {
+				return sfOp{}, false
+			}
+			return sfOp{kind: "addtolock", snd: ow, id: ids[r.Intn(len(ids))], amt: big.NewInt(int64(1 + r.Intn(3)))}, true
+		}, nil)
+	case 3: // top-up worth something at the low price: the delegation record is re-created before the recovery
+		e.step(func() (sfOp, bool) {
+			if len(ids) == 0 {
+				return sfOp{}, false
+			}
+			return sfOp{kind: "addtolock", snd: ow, id: ids[r.Intn(len(ids))], amt: big.NewInt(f * int64(1+r.Intn(4)))}, true
+		}, nil)
+	case 4: // a new lock delegated through the same account at the low price
+		var nid uint64
+		e.step(func() (sfOp, bool) {
+			return sfOp{kind: "lock", snd: ow, d: d, amt: big.NewInt(f*int64(1+r.Intn(3)) + int64(r.Intn(3))), dur: e.ubs, single: true}, true
+		}, func(ok bool, id uint64) {
+			if ok {
+				nid = id
+			}
+		})
+		e.step(func() (sfOp, bool) { return sfOp{kind: "delegate", snd: ow, id: nid, v: v}, nid != 0 }, nil)
+	case 5: // one lock undelegates while nothing is staked (no delegation record: nothing to burn)
+		e.step(func() (sfOp, bool) {
+			if len(ids) == 0 {
+				return sfOp{}, false
+			}
+			return sfOp{kind: "undelegate", snd: ow, id: ids[0]}, true
+		}, nil)
+	case 6: // a second refresh at the low price
+		e.step(func() (sfOp, bool) { return sfOp{kind: "epoch"}, true }, nil)
+	}
+	e.step(func() (sfOp, bool) {
+		g := f
+		switch r.Intn(5) {
+		case 0:
+			g = f/2 + 1
+		case 1:
+			g = 2 * f
+		}
+		return sfOp{kind: "move", d: d, num: g, den: 1, down: false}, true
+	}, nil)
+	e.step(func() (sfOp, bool) { return sfOp{kind: "epoch"}, true }, nil)
+	if r.Intn(2) == 0 {
+		e.step(func() (sfOp, bool) {
+			if len(ids) == 0 {
+				return sfOp{}, false
+			}
+			return sfOp{kind: "undelegate", snd: ow, id: ids[r.Intn(len(ids))]}, true
+		}, nil)
+	}
+}
+
+var sfFracs = []string{"0.333333333333333333", "0.142857142857142857", "0.01", "0.5", "0.05", "0.000001", "0.1", "0.25"}
+
+func (e *sfEngine) slashOp(v int) sfOp {
+	return sfOp{kind: "slash", v: v, frac: sfFracs[e.r.Intn(len(sfFracs))], num: int64(e.r.Intn(5))}
+}
+
+// planSlashed — "slashed validator": slashes before and after delegations (tokens per share != 1 and not a round
+// ratio), then undelegation / partial undelegate-and-unbond / top-up, a refresh after a price fall (burn path)
+// and one after a rise (mint path), with more slashes in between.
+func (e *sfEngine) planSlashed() {
+	r := e.r
+	var ds []int
+	for i, p := range e.pools {
+		if p.asset {
+			ds = append(ds, i)
+		}
+	}
+	d := ds[r.Intn(len(ds))]
+	v := r.Intn(len(e.vals) - 1)
+	ow := r.Intn(3)
+	var ids []uint64
+	e.o.Count("macro.slashed")
+	pick := func() (uint64, bool) {
+		if len(ids) == 0 {
+			return 0, false
+		}
+		return ids[r.Intn(len(ids))], true
+	}
+	amount := func() *big.Int {
+		if r.Intn(3) == 0 {
+			return e.randAmount()
+		}
+		return big.NewInt(int64(1 + r.Intn([]int{9, 100, 5000}[r.Intn(3)])))
+	}
+	if r.Intn(2) == 0 {
+		e.step(func() (sfOp, bool) { return e.slashOp(v), true }, nil)
+	}
+	for i, k := 0, 1+r.Intn(3); i < k; i++ {
+		e.step(func() (sfOp, bool) {
+			return sfOp{kind: "lock", snd: ow, d: d, amt: amount(), dur: e.ubs, single: true}, true
+		}, func(ok bool, id uint64) {
+			if ok {
+				ids = append(ids, id)
+			}
+		})
+		e.step(func() (sfOp, bool) {
+			if len(ids) == 0 {
+				return sfOp{}, false
+			}
+			return sfOp{kind: "delegate", snd: ow, id: ids[len(ids)-1], v: v}, true
+		}, nil)
+	}
+	e.step(func() (sfOp, bool) { return e.slashOp(v), true }, nil)
+	act := func() {
+		switch r.Intn(4) {
+		case 0:
+			e.step(func() (sfOp, bool) { id, ok := pick(); return sfOp{kind: "undelegate", snd: ow, id: id}, ok }, nil)
+		case 1, 2:
+			e.step(func() (sfOp, bool) {
+				id, ok := pick()
+				if !ok {
+					return sfOp{}, false
+				}
+				amt := big.NewInt(1)
+				for _, l := range e.locks() {
+					if l.id == id {
+						if r.Intn(4) == 0 {
+							amt = new(big.Int).Set(l.amount)
+						} else {
+							amt = new(big.Int).Add(new(big.Int).Rand(r, l.amount), big.NewInt(1))
+						}
+					}
+				}
+				return sfOp{kind: "undelunbond", snd: ow, id: id, amt: amt}, true
+			}, nil)
+		default:
+			e.step(func() (sfOp, bool) {
+				id, ok := pick()
+				if ok && e.pools[d].cl {
+					ok = false
+				}
+				return sfOp{kind: "addtolock", snd: ow, id: id, amt: amount()}, ok
+			}, nil)
+		}
+	}
+	fs := []int64{2, 3, 4, 10}
+	e.step(func() (sfOp, bool) { return sfOp{kind: "move", d: d, num: fs[r.Intn(4)], den: 1, down: true}, true }, nil)
+	e.step(func() (sfOp, bool) { return sfOp{kind: "epoch"}, true }, nil)
+	act()
+	if r.Intn(2) == 0 {
+		e.step(func() (sfOp, bool) { return e.slashOp(v), true }, nil)
+	}
+	e.step(func() (sfOp, bool) { return sfOp{kind: "move", d: d, num: fs[r.Intn(4)], den: 1, down: false}, true }, nil)
+	e.step(func() (sfOp, bool) { return sfOp{kind: "epoch"}, true }, nil)
+	act()
+	if r.Intn(2) == 0 {
+		e.step(func() (sfOp, bool) { return e.slashOp(v), true }, nil)
+		act()
+	}
+	e.step(func() (sfOp, bool) { return sfOp{kind: "epoch"}, true }, nil)
+}
+
+// moveBy: a directed price move in pool d: the OSMO reserve falls (down) or rises by about num/den through one
+// swap in the real pool (not a model op: the next epoch line carries the pool reading).
+func (e *sfEngine) moveBy(d int, num, den int64, down bool) {
+	p := e.pools[d]
+	pl, err := e.h.App.PoolManagerKeeper.GetPool(e.ctx(), p.id)
+	if err != nil {
+		panic(err)
+	}
+	osmo := e.h.App.BankKeeper.GetBalance(e.ctx(), pl.GetAddress(), e.bond).Amount.BigInt()
+	tokBal := e.h.App.BankKeeper.GetBalance(e.ctx(), pl.GetAddress(), p.token).Amount.BigInt()
+	in := func(x *big.Int) *big.Int { // x * (num/den - 1) / 0.99, at least 1
+		v := new(big.Int).Mul(x, big.NewInt(num-den))
+		v.Mul(v, big.NewInt(100))
+		v.Quo(v, big.NewInt(den*99))
+		if v.Sign() <= 0 {
+			v = big.NewInt(1)
+		}
+		return v
+	}
+	if !down && new(big.Int).Mul(osmo, big.NewInt(num)).Cmp(new(big.Int).Mul(pow10(23), big.NewInt(den))) > 0 {
+		e.o.Count("move.directed.capped") // keep the stake of one validator below 2^63 power units
+		return
+	}
+	cctx, write := e.h.Ctx.CacheContext()
+	ok := catch(func() {
+		if down {
+			_, _, err = e.h.App.PoolManagerKeeper.SwapExactAmountIn(cctx, e.trader, p.id, sdk.NewCoin(p.token, osmomath.NewIntFromBigInt(in(tokBal))), e.bond, osmomath.ZeroInt())
+		} else {
+			_, _, err = e.h.App.PoolManagerKeeper.SwapExactAmountIn(cctx, e.trader, p.id, sdk.NewCoin(e.bond, osmomath.NewIntFromBigInt(in(osmo))), p.token, osmomath.ZeroInt())
+		}
+	})
+	if !ok || err != nil {
+		e.o.Count("move.directed.err")
+		return
+	}
+	write()
+	if down {
+		e.o.Count("move.directed.down")
+	} else {
+		e.o.Count("move.directed.up")
+	}
+}
+
 // choose draws the next op of a random history.
 func (e *sfEngine) choose() (sfOp, bool) {
 	r := e.r
@@ -846,6 +1404,9 @@ func (e *sfEngine) choose() (sfOp, bool) {
 			}
 		}
 		return nil
+	}
+	if (e.class == "slash" || e.class == "mixed") && r.Intn(100) < 7 {
+		return e.slashOp(r.Intn(len(e.vals) - 1)), true
 	}
 	w := r.Intn(100)
 	switch {
@@ -914,8 +1475,12 @@ func (e *sfEngine) choose() (sfOp, bool) {
 }
 
 // do executes one op against the real keepers, records it, and runs the oracle.
-func (e *sfEngine) do(op sfOp) {
+func (e *sfEngine) do(op sfOp) (succeeded bool, retID uint64, emitted bool) {
 	h, o := e.h, e.o
+	if op.kind == "move" {
+		e.moveBy(op.d, op.num, op.den, op.down)
+		return true, 0, false
+	}
 	_, v0 := e.observe()
 	conn := map[uint64]string{}
 	for _, c := range v0.cn {
@@ -946,6 +1511,12 @@ func (e *sfEngine) do(op sfOp) {
 		return "ok"
 	}
 	touch := func(key string) { e.opsSinceEp[key]++ }
+	burnt := func(key string) { // a force-undelegation on the validator of account `key`
+		var d, v int
+		if _, err := fmt.Sscanf(key, "%d.%d", &d, &v); err == nil {
+			e.valBurns[v]++
+		}
+	}
 	snd := sdk.AccAddress{}
 	if op.snd >= 0 && op.snd < len(e.owners) {
 		snd = e.owners[op.snd]
@@ -977,7 +1548,7 @@ func (e *sfEngine) do(op sfOp) {
 			})
 			if err != nil || pn {
 				o.Count("lock.cl-failed")
-				return
+				return false, 0, false
 			}
 			l, _ := h.App.LockupKeeper.GetLockByID(e.ctx(), id)
 			amt = l.Coins[0].Amount.BigInt()
@@ -997,6 +1568,7 @@ func (e *sfEngine) do(op sfOp) {
 		}
 		line = fmt.Sprintf("superfluid lock %d %d %s %d %d", op.snd, op.d, amt, op.dur, sg)
 		res = result(err, pn, &id)
+		retID = id
 	case "addtolock":
 		denom := e.pools[0].denom
 		if l, ok := lock0[op.id]; ok && l.denom >= 0 {
@@ -1041,6 +1613,7 @@ func (e *sfEngine) do(op sfOp) {
 		res = result(err, pn, nil)
 		if err == nil && !pn {
 			touch(conn[op.id])
+			burnt(conn[op.id])
 			e.undeleg[op.id] = e.now()
 			if os.Getenv("VERIF_SF_MUTANT") == "nounstaking" { // self-test: the unstaking marker is not created
 				for _, sy := range h.App.LockupKeeper.GetAllSyntheticLockups(h.Ctx) {
@@ -1068,9 +1641,11 @@ func (e *sfEngine) do(op sfOp) {
 		})
 		line = fmt.Sprintf("superfluid undelunbond %d %d %s", op.snd, op.id, op.amt)
 		res = result(err, pn, &nid)
+		retID = nid
 		if err == nil && !pn {
 			touch(conn[op.id])
 			touch(conn[op.id])
+			burnt(conn[op.id])
 			e.undeleg[nid] = e.now()
 		}
 	case "beginunlock":
@@ -1129,6 +1704,11 @@ func (e *sfEngine) do(op sfOp) {
 			}
 			ups = append(ups, fmt.Sprintf("%d:%s:%s:%s", i, osmo, q, k))
 		}
+		var order []string // the store iterates the intermediary accounts by address: an input of the model
+		for _, a := range h.App.SuperfluidKeeper.GetAllIntermediaryAccounts(e.ctx()) {
+			order = append(order, fmt.Sprintf("%d.%d", e.denomIdx(a.Denom), e.valIdx(a.ValAddr)))
+		}
+		ups = append(ups, "o="+strings.Join(order, ","))
 		_, _, repBefore = e.supply()
 		err, pn := e.atomic(func(ctx sdk.Context) error {
 			h.App.SuperfluidKeeper.AfterEpochStartBeginBlock(ctx)
@@ -1139,6 +1719,80 @@ func (e *sfEngine) do(op sfOp) {
 		e.refreshedAll = err == nil && !pn
 		if e.refreshedAll {
 			e.opsSinceEp = map[string]int{}
+			e.slashSinceEp = map[int]bool{}
+			e.valBurns = map[int]int64{}
+		}
+	case "slash":
+		// the real staking keeper's Slash (infraction at the current height): BeforeValidatorSlashed runs
+		// superfluid's SlashLockupsForValidatorSlash, then the validator's tokens are burnt
+		val, verr := h.App.StakingKeeper.GetValidator(e.ctx(), e.vals[op.v])
+		if verr != nil {
+			return false, 0, false
+		}
+		consAddr, cerr := val.GetConsAddr()
+		if cerr != nil {
+			panic(cerr)
+		}
+		pr := h.App.StakingKeeper.PowerReduction(e.ctx())
+		power := val.Tokens.Quo(pr).Int64()
+		switch op.num {
+		case 1:
+			power = power/2 + 1
+		case 2:
+			power = 1
+		case 3:
+			power++
+		}
+		frac := osmomath.MustNewDecFromStr(op.frac)
+		powTok := h.App.StakingKeeper.TokensFromConsensusPower(e.ctx(), power)
+		want := powTok.ToLegacyDec().Mul(frac).TruncateInt()
+		if want.MulRaw(10).GT(val.Tokens.MulRaw(6)) {
+			o.Count("slash.skipped-too-large") // a (near) 100% slash empties locks: outside the modelled regime
+			return false, 0, false
+		}
+		// concentrated-share locks: whether the position-level preparation (prepareConcentratedLockForSlash:
+		// position lookup by lock id, UpdatePosition) succeeds is decided by the concentrated-liquidity module,
+		// which is outside the model; it is observed on a discarded branch and passed to the model as an input.
+		// (It fails e.g. for the lock split off by a partial undelegate-and-unbond: no position is mapped to it,
+		// and ApplyFuncIfNoError silently drops that lock's slash.)
+		var skip []string
+		if want.IsPositive() && val.Tokens.IsPositive() {
+			eff := want.ToLegacyDec().QuoRoundUp(val.Tokens.ToLegacyDec())
+			cctx, _ := h.Ctx.CacheContext()
+			catch(func() { h.App.SuperfluidKeeper.SlashLockupsForValidatorSlash(cctx, e.vals[op.v], eff) })
+			for _, sy := range v0.sy {
+				l, ok := lock0[sy.lock]
+				if sy.v != op.v || !ok || l.denom < 0 || !e.pools[l.denom].cl {
+					continue
+				}
+				exp := osmomath.NewIntFromBigInt(l.amount).ToLegacyDec().Mul(eff).TruncateInt()
+				l1, lerr := h.App.LockupKeeper.GetLockByID(cctx, sy.lock)
+				if exp.IsPositive() && lerr == nil && len(l1.Coins) > 0 && l1.Coins[0].Amount.BigInt().Cmp(l.amount) == 0 {
+					skip = append(skip, fmt.Sprint(sy.lock))
+				}
+			}
+		}
+		if len(skip) > 0 {
+			o.Count("slash.concentrated-lock-slash-dropped")
+		}
+		burned := new(big.Int)
+		err, pn := e.atomic(func(ctx sdk.Context) error {
+			b, err := h.App.StakingKeeper.Slash(ctx, consAddr, ctx.BlockHeight(), power, frac)
+			if err == nil {
+				burned = b.BigInt()
+			}
+			return err
+		})
+		line = fmt.Sprintf("superfluid slash %d %s %s x=%s", op.v, powTok, frac.BigInt(), strings.Join(skip, ","))
+		res = result(err, pn, nil)
+		if res == "ok" {
+			res = "ok " + burned.String()
+		}
+		if err == nil && !pn && burned.Sign() > 0 {
+			e.slashedVal[op.v] = true
+			e.slashSinceEp[op.v] = true
+			repBefore = new(big.Int).Sub(repBefore, burned)
+			o.Count("slash.frac." + op.frac)
 		}
 	case "exportimport":
 		// the REAL ExportGenesis (through the JSON codec), every key of the superfluid store deleted, the risk factor
@@ -1223,5 +1877,6 @@ func (e *sfEngine) do(op sfOp) {
 	}
 	o.Emit(line, res+" "+obs, op.kind != "advance")
 	o.Count("op." + op.kind + "." + strings.SplitN(res, " ", 2)[0])
-	e.oracle(op.kind, line, v, repBefore)
+	e.oracle(op.kind, line, v, v0, repBefore)
+	return strings.HasPrefix(res, "ok"), retID, true
 }
